@@ -32,14 +32,43 @@ type c09Char struct {
 }
 
 type c09Sys struct {
-	w     *world.World
-	dir   string
-	chars []*c09Char
-	k     *refctl.Ctl
-	wo    *c09Char // a write-only characteristic
-	mu    sync.Mutex
-	last  map[*characteristic.Characteristic]interface{} // value received by the remote-update callback
-	calls map[*characteristic.Characteristic]int
+	w      *world.World
+	dir    string
+	chars  []*c09Char
+	k      *refctl.Ctl
+	wo     *c09Char // a write-only characteristic
+	mu     sync.Mutex
+	last   map[*characteristic.Characteristic]interface{} // value received by the remote-update callback
+	calls  map[*characteristic.Characteristic]int
+	tlast  map[*characteristic.Characteristic]interface{} // value received by the TYPED remote-update callback
+	tcalls map[*characteristic.Characteristic]int
+	typed  map[*characteristic.Characteristic]bool // a typed remote-update callback is registered
+}
+
+// c09Typed is the Go value the typed API (SetValue / GetValue / OnValueRemoteUpdate) uses for a value of the alphabet.
+func c09Typed(ch *characteristic.Characteristic, v interface{}) interface{} {
+	if ch.Format == characteristic.FormatTLV8 || ch.Format == characteristic.FormatData {
+		if str, ok := v.(string); ok {
+			b, _ := base64.StdEncoding.DecodeString(str)
+			if b == nil {
+				b = []byte{}
+			}
+			return b
+		}
+	}
+	return v
+}
+
+// c09AppSet sets a value the way an application does: through the typed setter of the constructor's type when
+// typed is true and there is one, else through UpdateValue.
+func c09AppSet(cc *c09Char, v interface{}, typed bool) (usedTyped bool, err error) {
+	if typed {
+		if ok, err := catalog.TypedSet(cc.Obj, c09Typed(cc.Ch, v)); ok || err != nil {
+			return true, err
+		}
+	}
+	cc.Ch.UpdateValue(v)
+	return false, nil
 }
 
 func (s *c09Sys) Close() {
@@ -53,7 +82,7 @@ func (s *c09Sys) Close() {
 // c09Build assembles accessories from every characteristic constructor (25 per accessory) plus `extra`
 // additional switch accessories, starts the real transport and verifies L.
 func c09Build(c *fw.Ctx, extra int) (*c09Sys, error) {
-	s := &c09Sys{last: map[*characteristic.Characteristic]interface{}{}, calls: map[*characteristic.Characteristic]int{}}
+	s := &c09Sys{last: map[*characteristic.Characteristic]interface{}{}, calls: map[*characteristic.Characteristic]int{}, tlast: map[*characteristic.Characteristic]interface{}{}, tcalls: map[*characteristic.Characteristic]int{}, typed: map[*characteristic.Characteristic]bool{}}
 	s.dir = filepath.Join(c.Scratch, fmt.Sprintf("c09-%d", time.Now().UnixNano()))
 	bridge := accessory.NewBridge(accessory.Info{Name: "C09Bridge"})
 	var accs []*accessory.Accessory
@@ -99,6 +128,12 @@ func c09Build(c *fw.Ctx, extra int) (*c09Sys, error) {
 			s.mu.Lock()
 			s.last[ch] = nv
 			s.calls[ch]++
+			s.mu.Unlock()
+		})
+		s.typed[ch] = catalog.TypedOnRemoteUpdate(cc.Obj, func(v interface{}) {
+			s.mu.Lock()
+			s.tlast[ch] = v
+			s.tcalls[ch]++
 			s.mu.Unlock()
 		})
 	}
@@ -507,7 +542,11 @@ func c09Values1(c *fw.Ctx, part, parts int) {
 			}
 			if ch.IsReadable() {
 				c.Eval(1)
-				ch.UpdateValue(v.V)
+				// the application sets the value: through the typed setter of its type and through UpdateValue in turn
+				if _, serr := c09AppSet(cc, v.V, vi%2 == 0); serr != nil {
+					c.Report("setter-panics/"+sig, cc.Name+": "+serr.Error(), cas)
+					continue
+				}
 				// single id
 				es, ok := c09Get(c, s, [][2]uint64{{cc.Acc.ID, ch.ID}}, cas, "single")
 				if !ok {
@@ -542,7 +581,7 @@ func c09Values1(c *fw.Ctx, part, parts int) {
 				cas := c09Case{Kind: "value", Ctor: cc.Name, Value: v.Label}
 				jv, _ := json.Marshal(v.V)
 				s.mu.Lock()
-				before := s.calls[ch]
+				before, tbefore := s.calls[ch], s.tcalls[ch]
 				s.mu.Unlock()
 				prev := ch.Value
 				m, _, err := s.k.Do("PUT", "/characteristics", refctl.CTJSON, []byte(fmt.Sprintf(`{"characteristics":[{"aid":%d,"iid":%d,"value":%s}]}`, cc.Acc.ID, ch.ID, jv)))
@@ -552,6 +591,7 @@ func c09Values1(c *fw.Ctx, part, parts int) {
 				}
 				s.mu.Lock()
 				calls, last := s.calls[ch]-before, s.last[ch]
+				tcalls, tlast := s.tcalls[ch]-tbefore, s.tlast[ch]
 				s.mu.Unlock()
 				if ch.IsReadable() {
 					got, gerr := catalog.TypedGet(cc.Obj)
@@ -592,6 +632,17 @@ func c09Values1(c *fw.Ctx, part, parts int) {
 					}
 				}
 				changed := !reflect.DeepEqual(prev, v.V) || !ch.IsReadable()
+				if changed && s.typed[ch] {
+					// the typed callback of the constructor's type (func(int), func([]byte), …) receives the same value
+					tw := c09Typed(ch, v.V)
+					if b, ok := tlast.([]byte); ok && len(b) == 0 {
+						tlast = []byte{}
+					}
+					if tcalls != 1 || !reflect.DeepEqual(tlast, tw) {
+						c.Report("typed-remote-callback/"+sig, fmt.Sprintf("%s: a changing controller write of %s invoked the typed remote-update callback %d times with %v", cc.Name, trunc(jv, 40), tcalls, string(trunc([]byte(fmt.Sprint(tlast)), 40))), cas)
+						continue
+					}
+				}
 				if changed {
 					if calls != 1 || !reflect.DeepEqual(last, v.V) {
 						c.Report("remote-callback/"+sig, fmt.Sprintf("%s: a changing controller write of %s invoked the remote-update callback %d times with %v", cc.Name, trunc(jv, 40), calls, string(trunc([]byte(fmt.Sprint(last)), 40))), cas)
